@@ -42,6 +42,8 @@ func checkC09(p *Prog, r *Report) {
 	c09IdentifierCompare(p, r, "C09.identifier-compare")
 	// the current keyspace handed to the parser must keep the USE statement's quoting
 	keyspaceWrites(p, r, "C09.current-keyspace")
+	c09UseKeepsSpelling(p, r, "C09.current-keyspace")
+	c06IdentifierTokenAs(p, r, "C09.identifier-token")
 	tokenBased(p, r, "C09.token-based")
 }
 
@@ -724,6 +726,33 @@ func tokenBased(p *Prog, r *Report, rule string) {
 				}
 			}
 			if !toLexer {
+				// the lexer may be given a text derived from the parameter: that is an entry point too, and
+				// the derivation is the finding (the text the verdict is about is not the text that runs)
+				eachCall(fn, func(c ssa.CallInstruction) {
+					callee := c.Common().StaticCallee()
+					if callee == nil || !recvNamedIsFn(callee, "parser", "lexer") {
+						return
+					}
+					for _, a := range c.Common().Args[1:] {
+						if b, ok := a.Type().Underlying().(*types.Basic); !ok || b.Kind() != types.String {
+							continue
+						}
+						fromPar, other := false, ""
+						for _, o := range origins(a) {
+							if o == ssa.Value(par) {
+								fromPar = true
+							} else {
+								other = valDesc(o)
+							}
+						}
+						if fromPar && other != "" {
+							toLexer = true
+							bad = append(bad, fmt.Sprintf("%s: the lexer is given a transformed copy of the statement text (%s): the statement that is classified is not the statement the backend executes", p.Pos(c.Pos()), other))
+						}
+					}
+				})
+			}
+			if !toLexer {
 				continue
 			}
 			n++
@@ -983,4 +1012,42 @@ func (m *memberRole) check(p *Prog) []string {
 		mb = append(mb, "no Identifier.equal comparison")
 	}
 	return dedupe(mb)
+}
+
+
+// c09UseKeepsSpelling: the keyspace of a USE statement is kept as written.  The proxy stores it as
+// the connection's current keyspace and parses it again for every later statement: stripped of its
+// quotes, "System" would be read as an unquoted, case-insensitive identifier and equal system.
+func c09UseKeepsSpelling(p *Prog, r *Report, rule string) {
+	lex := p.Named("parser", "lexer")
+	var bad []string
+	n := 0
+	for _, fn := range p.ScopedFuncs("parser") {
+		for _, lit := range structLits(fn, func(t types.Type) bool { return typeIs(t, "parser", "UseStatement") }) {
+			n++
+			v := lit["Keyspace"]
+			ok := false
+			why := valDesc(v)
+			for _, o := range origins(v) {
+				c, isCall := o.(*ssa.Call)
+				if !isCall || c.Call.StaticCallee() == nil {
+					continue
+				}
+				callee := c.Call.StaticCallee()
+				// the lexer's accessor for the raw text of the identifier token
+				if recvNamed(callee) == lex && callee.Signature.Results().Len() == 1 {
+					if b, isStr := callee.Signature.Results().At(0).Type().Underlying().(*types.Basic); isStr && b.Kind() == types.String {
+						ok = true
+					}
+				}
+				if rn := recvNamed(callee); rn != nil && rn.Obj().Name() == "Identifier" {
+					why = "Identifier." + callee.Name() + "(), which removes the quotes"
+				}
+			}
+			if !ok {
+				bad = append(bad, fmt.Sprintf("%s: the keyspace of the USE statement is %s, not the identifier as written: after USE \"System\" the stored name is read back as the case-insensitive `System`, i.e. system, and unqualified local/peers are answered by the proxy", p.Pos(lit["\x00pos"].Pos()), why))
+			}
+		}
+	}
+	r.check(len(bad) == 0 && n > 0, rule, "parser.UseStatement.Keyspace", "", fmt.Sprintf("%d literal(s)", n), strings.Join(dedupe(bad), " || "))
 }
